@@ -370,9 +370,60 @@ def batches2(rng, tier):
 
 # ---------------------------------------------------------------- independent spec oracle (used when an obligation broke)
 
+def wrap(t, v):
+    """C++20 conversion to t: the value congruent to v modulo 2^bits inside t's range"""
+    v %= 1 << BITS[t]
+    return v - (1 << BITS[t]) if t[0] == "i" and v >= 1 << (BITS[t] - 1) else v
+
+
+def tdiv(a, b):
+    return abs(a) // abs(b) * (1 if (a >= 0) == (b >= 0) else -1)
+
+
+def common(l, r):
+    """type of `L / R` (usual arithmetic conversions, LP64)"""
+    pl, pr = PROMOTED[l], PROMOTED[r]
+    if pl == pr:
+        return pl
+    if pl[0] == pr[0]:
+        return pl if BITS[pl] >= BITS[pr] else pr
+    u, sg = (pl, pr) if pl[0] == "u" else (pr, pl)
+    return u if BITS[u] >= BITS[sg] else sg
+
+
+def interval_spec(t, a1, b1, a2, b2):
+    """what interval_distance computes (see Spec/C06.lean); None outside the guard (a signed difference overflows)"""
+    p = PROMOTED[t]
+    if b1 <= b2:
+        a1, b1, a2, b2 = a2, b2, a1, b1
+    parts = [a1 - b2] if a2 <= a1 else [b2 - b1, a1 - a2]
+    if p[0] == "i":
+        if any(not lo(p) <= d <= hi(p) for d in parts):
+            return None
+        return str(wrap(t, max(parts)))
+    return str(wrap(t, max(wrap(p, d) for d in parts)))
+
+
 def spec(f, t, args):
     """Exact mathematical result under the property's guard; None = outside the guard (anything goes)."""
     inr = lambda ty, v: lo(ty) <= v <= hi(ty)
+    if f in ("size", "to_signed", "to_unsigned"):
+        return str(wrap(t[0], args[0]))
+    if f in ("safe_numeric", "promote_int"):
+        return str(args[0])
+    if f == "divmix":
+        c = common(t[0], t[1])
+        a, b = wrap(c, args[0]), wrap(c, args[1])
+        if args[1] == 0:
+            return "none"
+        q = tdiv(a, b)
+        return ("some %d" % q) if inr(c, q) else None
+    if f == "interval_distance":
+        return interval_spec(t, *args)
+    if f == "mask_c":
+        return str(t[1])
+    if f == "shifted_mask_c":
+        return str(1 << t[1])
     if f == "truncation_check":
         d, s = t
         return ("some %d" % args[0]) if inr(d, args[0]) else "none"
@@ -389,8 +440,8 @@ def spec(f, t, args):
     if f == "div":
         if b == 0:
             return "none"
-        q = abs(a) // abs(b) * (1 if (a >= 0) == (b >= 0) else -1)
-        return ("some %d" % q) if inr(t, q) else None
+        q = tdiv(a, b)
+        return ("some %d" % q) if inr(PROMOTED[t], q) else None
     if f == "mod":
         return "none" if b == 0 else "some %d" % (a % b)
     if f == "diff":
@@ -416,10 +467,23 @@ def spec(f, t, args):
 
 
 def parse_name(name):
-    for f in ("truncation_check", "from_int"):
-        if name.startswith(f + "_"):
-            d, s = name[len(f) + 1:].split("_")
-            return f, (d, s)
+    import re
+    for f in ("truncation_check", "from_int", "size", "safe_numeric"):
+        m = re.fullmatch(f + r"_([ui]\d+)_([ui]\d+)", name)
+        if m:
+            return f, (m.group(1), m.group(2))
+    m = re.fullmatch(r"div_([ui]\d+)_([ui]\d+)", name)
+    if m:
+        return "divmix", (m.group(1), m.group(2))
+    m = re.fullmatch(r"(mask_c|shifted_mask_c)_(u\d+)_(\d+)", name)
+    if m:
+        return m.group(1), (m.group(2), int(m.group(3)))
+    m = re.fullmatch(r"to_signed_(u\d+)", name)
+    if m:
+        return "to_signed", ("i" + m.group(1)[1:],)
+    m = re.fullmatch(r"to_unsigned_(i\d+)", name)
+    if m:
+        return "to_unsigned", ("u" + m.group(1)[1:],)
     f, t = name.rsplit("_", 1)
     return f, t
 
@@ -450,13 +514,36 @@ def search(binp, rng, tier):
         vs = [lo(t), lo(t) + 1, -1, 0, 1, 5, hi(t) - 1, hi(t)]
         vs = [v for v in vs if lo(t) <= v <= hi(t)]
         ops += [f"call clamp_{t} {a} {b} {c}" for a in vs for b in vs for c in vs]
+    # second generation
+    pick = lambda t: lattice(t) if BITS[t] > 8 else list(range(lo(t), hi(t) + 1))
+    few = lambda t: [v for v in pick(t) if abs(v) < 40 or v in (lo(t), hi(t), lo(t) + 1, hi(t) - 1) or (abs(v) & (abs(v) - 1)) == 0 or ((abs(v) + 1) & abs(v)) == 0][:90]
+    for grp in (UNS, SIG):
+        for d in grp:
+            for s in grp:
+                ops += [f"call size_{d}_{s} {v}" for v in pick(s)]
+                if BITS[d] >= BITS[s]:
+                    ops += [f"call safe_numeric_{d}_{s} {v}" for v in pick(s)]
+    for t in ALL:
+        ops += [f"call promote_int_{t} {v}" for v in pick(t)]
+        ops += [f"call {'to_signed' if t[0] == 'u' else 'to_unsigned'}_{t} {v}" for v in pick(t)]
+    for t in ("u8", "i8", "u16", "i16"):
+        ops += [f"call div_{t} {a} {b}" for a in few(t) for b in few(t)]
+    for t in ("i8", "i16"):
+        ops += [f"call ceil_div_signed_{t} {a} {b}" for a in few(t) for b in few(t)]
+    for l, r in DIV_MIXED:
+        ops += [f"call div_{l}_{r} {a} {b}" for a in few(l) for b in few(r)]
+    for t in ALL:
+        vs = small(t) + ([3, 4, 7] if t[0] == "u" else [-5, 3, 4])
+        vs = sorted(set(v for v in vs if lo(t) <= v <= hi(t)))
+        ops += [f"call interval_distance_{t} {a} {b} {c} {d}" for a in vs for b in vs for c in vs for d in vs]
+    ops += [f"call mask_c_{t}_{m}" for t in UNS for m in MASK_C[t]] + [f"call shifted_mask_c_{t}_{b}" for t in UNS for b in SHIFTED_MASK_C[t]]
     out, deaths = run_harness(binp, ops)
     for op, got in zip(ops, out):
         tk = op.split()
         f, t = parse_name(tk[1])
         args = [int(x) for x in tk[2:]]
         try:
-            want = spec(f, t if not isinstance(t, tuple) else (t[0], t[1]), args)
+            want = spec(f, t, args)
         except Exception:
             want = None
         if want is not None and got != want:
